@@ -25,7 +25,7 @@ REGISTRY = {
 NOT_APPLICABLE = {}
 
 # properties whose check is complete and claimed in MANIFEST.json (maintained by the orchestrating session)
-READY = ["C01", "C02", "C03", "C04", "C05", "C06", "C07", "C08", "C09", "C10", "C11", "C12", "C13", "C14", "C15", "C16", "C18", "C19", "C20"]
+READY = ["C01", "C02", "C03", "C04", "C05", "C06", "C07", "C08", "C09", "C10", "C11", "C12", "C13", "C14", "C15", "C16", "C17", "C18", "C19", "C20"]
 
 # per-property entries live in checks/reg_cXX.py (each defines ENTRY = {"Cxx": {...}} and optionally NA = {...})
 import glob as _g, os as _o, importlib.util as _u
